@@ -307,7 +307,8 @@ KNOWN_FLAGS = {
 _CONFIRMED: T.Dict[str, int] = {}     # per process: signature -> number of subprocess confirmations so far
 
 
-def judge(case: dict, workdir: str, ev: Evidence, record: bool = True, always_confirm: bool = False) -> T.Optional[Failure]:
+def judge(case: dict, workdir: str, ev: Evidence, record: bool = True, always_confirm: bool = False,
+          sub_first: bool = False) -> T.Optional[Failure]:
     from harness import mesondrv  # noqa: F401  (import early so that failures are harness errors)
     prog = {'files': case['files']}
     style = case.get('style') or []
@@ -341,11 +342,13 @@ def judge(case: dict, workdir: str, ev: Evidence, record: bool = True, always_co
         ev.event('outcome:' + o.kind)
         if o.kind == 'error':
             ev.event('error-kind:' + o.error_kind)
-    ob = run_real(texts, workdir, sub=False)
+    ob = run_real(texts, workdir, sub=sub_first)
     d = compare(ref, ob)
     if d is None:
         return None
-    if not always_confirm and _CONFIRMED.get(d[0], 0) >= 2:
+    if sub_first:
+        ob2, d2 = ob, d
+    elif not always_confirm and _CONFIRMED.get(d[0], 0) >= 2:
         # this root cause was already reproduced twice in fresh subprocesses by this worker; every failure that is
         # finally reported is confirmed again in _shard (always_confirm)
         ob2, d2 = ob, d
@@ -426,10 +429,11 @@ def _shard(shard: T.Tuple[str, str, int, int, str], ev: Evidence, fails: T.List[
     kind, name, seed, n, scratch = shard
     workdir = os.path.join(scratch, f'w-{kind}-{name}-{seed}')
     os.makedirs(workdir, exist_ok=True)
-    strat = G.programs(name) if kind == 'mode' else G.family(name)
+    strat = G.programs(name) if kind in ('mode', 'submode') else G.family(name)
+    sub_first = kind == 'submode'
     try:
         found: T.List[Failure] = []
-        campaign(strat, lambda case: judge(case, workdir, ev), n, seed, found)
+        campaign(strat, lambda case: judge(case, workdir, ev, sub_first=sub_first), n, seed, found)
         scratch_ev = Evidence()
         for f in found:
             f2 = judge(f.case, workdir, scratch_ev, record=False, always_confirm=True)
@@ -475,6 +479,11 @@ def run(ctx: Ctx) -> None:
     for fam in ('shortcircuit', 'alias', 'precedence', 'escapes', 'floordiv', 'sortedkeys'):
         shards.append(('family', fam, seeds[k], n_fam, scratch))
         k += 1
+    if not ctx.quick:
+        # fresh-subprocess-only runs: guards against in-process state masking a disagreement
+        for j, mode in enumerate(['ok', 'fault', 'sub', 'ok', 'fault', 'ok', 'fault', 'ok'] * 2):
+            shards.append(('submode', mode, seeds[k], ctx.n(1, 300), scratch))
+            k += 1
     pmap(ctx, _shard, shards)
     ctx.ev.extra['probes'] = [p['sig'] for p in PROBES]
 
